@@ -176,3 +176,21 @@ Proof.
   exists flt_pt, 0, 1, flt_e. eexists. exists flt_a.
   split; [vm_compute; reflexivity|]. repeat split; vm_compute; reflexivity.
 Qed.
+
+(* variant b: a trivially satisfied (constant-path) LessThan takes indicator 1 and the constant end time
+   of a child that is lowered through solver variables and is NOT satisfied *)
+Definition fltb_pt : ptab := [(1, 2, true)].
+Definition fltb_e : expr :=
+  Objective 12 [LessThan 11
+                  (LessThan 10 (Choose 1 [1] 1 0 5 1)
+                     (LessThan 9 (LessThan 8 (Choose 2 [1] 1 6 1 1) (Max 7 [Choose 3 [1] 1 8 1 1])) (Choose 4 [1] 1 1 1 1)))
+                  (Choose 5 [1] 1 3 1 1)].
+Definition fltb_a : asg := asg_of [(VInd 1, 1); (VAlloc 1 1, 1); (VInd 5, 1); (VAlloc 5 1, 1); (VStart 7, 7)].
+
+Lemma lessthan_refuted_b :
+  exists pt now g e cs a, compile pt now g e = Ok cs /\ sat cs a = true /\ alignedb g e = true /\
+    lt_okb e (populate pt now a e) = false.
+Proof.
+  exists fltb_pt, 0, 1, fltb_e. eexists. exists fltb_a.
+  split; [vm_compute; reflexivity|]. repeat split; vm_compute; reflexivity.
+Qed.
